@@ -81,5 +81,8 @@ let () =
   Ops.register "sem_c19_strong_full" (with_dummy_components Ops_tasks_sem.sem_c19_strong);
   Ops.register "mu" mu;
   Ops.register "strong_decompose_full" strong_decompose_full;
-  Ops.register "strong_families_full" strong_families_full
+  Ops.register "strong_families_full" strong_families_full;
+  (* C07verify: the same ops with the generator of pairs rich in double negations and choice heads *)
+  Ops.register "strong_decompose_verify" strong_decompose_full;
+  Ops.register "strong_families_verify" strong_families_full
 let init () = ()
